@@ -618,6 +618,85 @@ func VH_C05_Opcode() {
 	}
 }
 
+// refLocktime: OP_CHECKLOCKTIMEVERIFY / OP_CHECKSEQUENCEVERIFY per the node (BIP65 / BIP112 as
+// kept by BSV before Genesis; plain NOPs after Genesis or without their flag). The stack is never changed.
+func refLocktime(op byte, after bool, flags scriptflag.Flag, st *refStacks, version, lockTime, seq uint32) int {
+	flag := scriptflag.VerifyCheckLockTimeVerify
+	if op == bscript.OpCHECKSEQUENCEVERIFY {
+		flag = scriptflag.VerifyCheckSequenceVerify
+	}
+	if flags&flag == 0 || after {
+		if flags&scriptflag.DiscourageUpgradableNops != 0 {
+			return refErr
+		}
+		return refOK
+	}
+	if len(st.d) < 1 {
+		return refErr
+	}
+	n, ok := refDecode(st.d[len(st.d)-1], 5, flags&scriptflag.VerifyMinimalData != 0)
+	if !ok || n.Sign() < 0 {
+		return refErr
+	}
+	v := n.Int64()
+	if op == bscript.OpCHECKLOCKTIMEVERIFY {
+		const threshold = 500000000
+		tl := int64(lockTime)
+		if !((tl < threshold && v < threshold) || (tl >= threshold && v >= threshold)) {
+			return refErr
+		}
+		if v > tl || seq == 0xffffffff {
+			return refErr
+		}
+		return refOK
+	}
+	if v&(1<<31) != 0 {
+		return refOK
+	}
+	if version < 2 || seq&(1<<31) != 0 {
+		return refErr
+	}
+	const typeFlag = int64(1 << 22)
+	mask := typeFlag | 0xffff
+	a, b := int64(seq)&mask, v&mask
+	if !((a < typeFlag && b < typeFlag) || (a >= typeFlag && b >= typeFlag)) {
+		return refErr
+	}
+	if b > a {
+		return refErr
+	}
+	return refOK
+}
+
+// C05-S2b: the two lock-time opcodes with a transaction context (version, lock time and the input's
+// sequence number symbolic; operand up to six bytes).
+func VH_C05_Locktime() {
+	th, op, ok := vstepThread(vStepOpts{depth: 2, k: 1, bigTop: 6, extra: 1, executing: true, withTx: true})
+	if !ok {
+		return
+	}
+	vassume(op == bscript.OpCHECKLOCKTIMEVERIFY || op == bscript.OpCHECKSEQUENCEVERIFY)
+	st := &refStacks{}
+	for _, it := range th.dstack.stk {
+		st.d = append(st.d, vcopy(it))
+	}
+	var want int
+	if th.numOps+1 > th.cfg.MaxOps() {
+		want = refErr
+	} else {
+		want = refLocktime(op, th.afterGenesis, th.flags, st, th.tx.Version, th.tx.LockTime, th.tx.Inputs[0].SequenceNumber)
+	}
+	err := th.executeOpcode(th.scripts[1][0])
+	got := vclass(err)
+	vassert(got == want, "C05: lock-time opcode verdict equals the reference")
+	if got == refOK {
+		vassert(vstacksEq(th.dstack.stk, st.d), "C05: lock-time opcodes leave the stack unchanged")
+		vreach("c05-locktime-ok")
+	} else {
+		vreach("c05-locktime-err")
+	}
+}
+
 // ---- control flow reference (node semantics: a vector of executed/not-executed levels) ----
 
 type refCtl struct {
